@@ -69,19 +69,6 @@ example : convColour 8 ⟨200, some ⟨1, 2, 3⟩⟩ = ⟨5, none⟩ ∧ convCol
 
 /-! ### the invariant -/
 
-theorem runOps_append (cfg : Cfg) (xs ys : List Op) (st : TState) :
-    runOps cfg (xs ++ ys) st = (runOps cfg xs st).bind (runOps cfg ys) := by
-  induction xs generalizing st with
-  | nil => rfl
-  | cons x xs ih =>
-    simp only [List.cons_append, runOps]
-    split
-    · rfl
-    · exact ih _
-
-theorem logical_snoc (ops : List Op) (op : Op) : logical (ops ++ [op]) = logicalStep (logical ops) op := by
-  simp [logical, List.foldl_append]
-
 /-- **sgr_inv.** After any history of set-pen and change-pen requests (that does not overflow `params[]`), on a terminal
     with at least 8 colours, every pen satisfying `PenOk`: the terminal is between control sequences, the cached pen is the
     palette-converted logical pen, and the rendering attributes in force — as determined by the bytes emitted so far — are
